@@ -300,7 +300,10 @@ def _mk(name, body, bounds, timeout_ms=120000, max_paths=60000):
 def groups(tier):
     gs = []
     kinds = ["additive", "random", "nested"]
-    nmax = {"additive": 3, "random": 3, "nested": 3} if tier == "quick" else {"additive": 4, "random": 5, "nested": 5}
+    import os
+
+    # weights[n=5,nested] (14400 paths, 2.0e6 obligations, all unsat) takes about 2 h on one core: only with C12_DEEP=1
+    nmax = {"additive": 3, "random": 3, "nested": 3} if tier == "quick" else {"additive": 4, "random": 5, "nested": 5 if os.environ.get("C12_DEEP") else 4}
     for kind in kinds:
         for n in range(1, nmax[kind] + 1):
             gs.append(_mk("weights[n=%d,%s]" % (n, kind), weights_body(n, kind, ()), dict(n=n, interaction=kind, explicit=[])))
